@@ -1620,9 +1620,13 @@ pub fn eval_step(p: &mut Project, cfg: &ChainCfg, seed: u64, step: usize, edits:
             let strip = |l: &Vec<String>| -> Vec<String> { l.iter().map(|x| if x.starts_with("ok ") { x.split('|').next().unwrap_or("").to_string() } else { x.clone() }).collect() };
             if strip(&t.log) == strip(&rep.log) {
                 acc.count("c20_misuse_free_twins_with_identical_calls", 1);
+                // with a failure or an abort, whether a validated job had already been skipped when the fault arrived
+                // depends on the engine's internal (hash) order, not on the calls (section 3.8): dispositions and cleanup
+                // offers are only compared for fault-free evaluations, the returned history (under the comparison) always
+                let faulty = rep.interrupted() || t.interrupted();
                 for n in &p.g.nodes {
                     let (a, b) = (rep.disposition(&n.id), t.disposition(&n.id));
-                    if a != b {
+                    if a != b && !faulty {
                         all_viols.push((mk("C20", "misuse-changed-later-behaviour", format!("disposition:{}:{}/{}", kind_char(n.kind), a, b), format!("with rejected illegal calls {} ends {}, in the same evaluation without them {}", n.id, a, b)), "misuse-free-twin"));
                     }
                 }
@@ -1635,7 +1639,7 @@ pub fn eval_step(p: &mut Project, cfg: &ChainCfg, seed: u64, step: usize, edits:
                     (None, None) => {}
                     _ => all_viols.push((mk("C20", "misuse-changed-later-behaviour", "history-missing".into(), "only one of the two evaluations (with / without the rejected illegal calls) returned a history".to_string()), "misuse-free-twin")),
                 }
-                if rep.cleanup_offered != t.cleanup_offered {
+                if rep.cleanup_offered != t.cleanup_offered && !faulty {
                     all_viols.push((mk("C20", "misuse-changed-later-behaviour", "cleanup".into(), format!("cleanup offers {:?} vs {:?} without the rejected illegal calls", rep.cleanup_offered, t.cleanup_offered)), "misuse-free-twin"));
                 }
             } else {
